@@ -6,11 +6,14 @@ from . import c02_code
 ID = "C02"
 RULE = (
     "binary inputs with ordered leaf syntenies (every family subset per leaf, mutually consistent or inconsistent "
-    "orders, optional prescribed root order), up to 4 object leaves x 4 species leaves x 3-4 families, cost vectors "
+    "orders, optional prescribed root order), up to 5 object leaves x 4 species leaves x 4 families, cost vectors "
     "inside spe + 2*sloss <= dup + 2*floss with sloss = 0, the boundary and an infinite transfer cost over-sampled; "
     "sreconcile_extended_spfs / sreconcile_base_spfs under both policies vs the Lean model (same solution set) and "
     "the Lean specification (validity; cost = minimum over all species mappings, root orders and labellings — for "
-    "the base solver over solutions using the LCA mapping; empty result iff no compatible order).  "
+    "the base solver over solutions using the LCA mapping; empty result iff no compatible order).  Thorough: "
+    "additionally EVERY input up to 3 object leaves x 3 species leaves x 2 families and up to 2 object leaves x 2 "
+    "species leaves x 3 families (every leaf assignment, every arrangement of every family subset per leaf) on three "
+    "cost vectors.  "
     "Non-trivial = at least 3 object leaves and 2 species."
 )
 TRUSTED = [
@@ -31,12 +34,32 @@ CORPUS = [
     {"S": [], "O": {"s": "", "f": [0, 1]}},
 ]
 
+EXH_COSTS = [
+    {"spe": 0, "dup": 1, "hgt": 1, "floss": 1, "sloss": 1},
+    {"spe": 2, "dup": 0, "hgt": 0, "floss": 1, "sloss": 0},      # boundary of the coherent region, sloss = 0
+    {"spe": 1, "dup": 1, "hgt": "inf", "floss": 0, "sloss": 0},  # boundary, no transfer, free losses (many ties)
+]
+
+
+def _exhaustive():
+    from .. import gen
+
+    for scope in ((3, 3, 2), (2, 2, 3)):
+        for base in gen.exhaustive_labelled_cases(*scope, ordered=True):
+            if scope == (2, 2, 3) and max(len(l["f"]) for _, l in solvers._leaves(base["O"])) < 3:
+                continue  # already inside the first scope up to renaming of families
+            for g in EXH_COSTS:
+                yield {**base, "costs": dict(g)}
+
+
 _corpus, _run, shrink, replay = make(
     ID, ["ext_spfs", "base_spfs"],
-    [(lambda ctx, rng: solvers.ordered_case(ctx, rng, 4, 4, 3), 0.8),
-     (lambda ctx, rng: solvers.ordered_case(ctx, rng, 3, 3, 4), 0.2)],
+    [(lambda ctx, rng: solvers.ordered_case(ctx, rng, 4, 4, 3), 0.6),
+     (lambda ctx, rng: solvers.ordered_case(ctx, rng, 3, 3, 4), 0.15),
+     # the upper end of the quantifier's scope: 5 object leaves, 4 species leaves, 4 families
+     (lambda ctx, rng: solvers.ordered_case(ctx, rng, 5, 4, 4), 0.25)],
     lambda res, r: solvers.judge_optimal(res, r, ID),
-    quick=1200, thorough=6000, corpus_cases=CORPUS, known_algos=["ext_spfs"],
+    quick=1200, thorough=6000, corpus_cases=CORPUS, known_algos=["ext_spfs"], exhaustive=_exhaustive,
 )
 
 TRUSTED = TRUSTED + c02_code.TRUSTED
